@@ -52,6 +52,8 @@ static int one_call(char** t, int n, int print)
         if (t[0][0] == 'u') gp_str_to_upper_full(&s, loc(t[1]));
         else if (t[0][0] == 'l') gp_str_to_lower_full(&s, loc(t[1]));
         else gp_str_capitalize(&s, loc(t[1]));
+        size_t sa_call = sa_n;                               /* gp_cstr / delete below do not allocate */
+        (void)sa_call;
         if (print) vp_puthex(gp_cstr(s), gp_str_length(s));
         gp_str_delete(s);
         return 1;
@@ -69,6 +71,7 @@ static int one_call(char** t, int n, int print)
     if (n >= 5 && !strcmp(t[0], "cmp")) {
         size_t l1, l2; uint8_t* b1 = vp_hex(t[3], &l1); uint8_t* b2 = vp_hex(t[4], &l2);
         GPString s1 = gp_str_new(SA, l1, ""); gp_str_copy(&s1, b1, l1); free(b1);
+        sa_n = 0;
         int r = gp_str_compare(s1, b2, l2, flags_of(t[1]), loc(t[2]));
         if (print) printf("%d", (r > 0) - (r < 0));
         gp_str_delete(s1); free(b2);
@@ -84,6 +87,7 @@ static int one_call(char** t, int n, int print)
             arr[i] = s; orig[i] = s;
         }
         ((GPArrayHeader*)arr - 1)->length = cnt;
+        sa_n = 0;
         gp_str_sort(&arr, flags_of(t[1]), loc(t[2]));
         int bad = 0;
         for (int i = 0; i < cnt; i++) {          /* permutation of the same objects */
